@@ -135,9 +135,17 @@ def build_doc(h):
                 m = AxisMappingDescriptor(inputLocation=user_loc(r) or {axes[0][0]: axes[0][3]}, outputLocation=user_loc(r) or {axes[1][0]: axes[1][3]})
                 if r.random() < 0.5:
                     m.description = r.choice(TEXTS)
-                if r.random() < 0.3:
-                    m.groupDescription = r.choice(TEXTS)
+                if r.random() < 0.5:
+                    # few distinct group descriptions, so that groups repeat non-contiguously (A, B, A / None, x, None)
+                    m.groupDescription = r.choice(["light side", "heavy side", TEXTS[0]])
                 doc.addAxisMapping(m)
+                if r.random() < 0.5:
+                    # mappings come in bunches
+                    for _ in range(r.randint(1, 3)):
+                        m2 = AxisMappingDescriptor(inputLocation=user_loc(r) or {axes[0][0]: axes[0][3]}, outputLocation=user_loc(r) or {axes[1][0]: axes[1][3]})
+                        if r.random() < 0.6:
+                            m2.groupDescription = r.choice(["light side", "heavy side", TEXTS[0]])
+                        doc.addAxisMapping(m2)
         elif name == "rule":
             if axes:
                 counters["rule"] += 1
